@@ -28,8 +28,8 @@ pub fn prop() -> Prop {
         id: "C09",
         level: "fault_enumeration",
         runs: |t| match t {
-            Tier::Quick => 64,
-            Tier::Thorough => 420,
+            Tier::Quick => 400,
+            Tier::Thorough => 2400,
         },
         generate,
         exec,
